@@ -142,9 +142,17 @@ def gen_case(rng, tier):
                                   "uw": rng.random() < 0.5},
                                  {"op": "scale", "attr": rng.choice(["variances", "means", "weights"]),
                                   "k": rng.choice([0.5, 1.3, 2.0])},
-                                 {"op": "floor_bump", "up": rng.choice([2.0, 10.0, 50.0])}])
+                                 {"op": "floor_bump", "up": rng.choice([2.0, 10.0, 50.0])},
+                                 {"op": "floor_raise", "up": rng.choice([0.5, 1.0, 2.0, 10.0])}])
                      for _ in range(rng.choice([0, 0, 1, 2, 3]))],
         }
+        if rng.random() < 0.3:
+            # loads that are refused (a statistics file read as a machine, a MAP file read
+            # without its prior, a missing file) happen in the same process before the state to
+            # be saved is reached; the caller catches the exceptions
+            case["failed_loads"] = [rng.choice(["stats_file_as_machine", "map_file_without_prior",
+                                                "missing_file", "load_stats_file_into_live"])
+                                    for _ in range(rng.randint(1, 2))]
         if rng.random() < 0.12:
             # special but valid parameter values, stored as they are (no training in between)
             case["pretrain"], case["post"], case["pdtype"] = 0, [], "float64"
@@ -393,6 +401,35 @@ def _save_raw(obj, path, by):
             obj.save(f)
 
 
+def _refused_load(how, live, case, store, rec):
+    from bob.learn.em import GMMMachine, GMMStats
+    path = store.slot()
+    try:
+        if how in ("stats_file_as_machine", "load_stats_file_into_live"):
+            GMMStats(case["c"], case["d"]).save(path)
+            import gc
+            gc.collect()
+            if how == "stats_file_as_machine":
+                GMMMachine.from_hdf5(path)
+            else:
+                live.load(path)
+        elif how == "map_file_without_prior":
+            prior = _base_gmm(case)
+            mm = GMMMachine(case["c"], trainer="map", ubm=prior)
+            with h5py.File(path, "w") as f:
+                mm.save(f)
+            GMMMachine.from_hdf5(path)
+        else:
+            GMMMachine.from_hdf5(os.path.join(store.dir, "does-not-exist.hdf5"))
+        rec.probe("invalid_load_accepted_" + how)
+    except Exception:
+        rec.probe("refused_load_" + how)
+        rec.faults["F10_rejected_call"] = rec.faults.get("F10_rejected_call", 0) + 1
+    finally:
+        import gc
+        gc.collect()
+
+
 def run_case(case, replay=None):
     rec = SimRec(replay)
     store = _Store()
@@ -422,6 +459,8 @@ def _run_machine(case, rec, store):
 
     X, probe = A(case["X"]), A(case["probe"])
     live, prior = _build_machine(case)
+    for fl in case.get("failed_loads", []):
+        _refused_load(fl, live, case, store, rec)
     if case["pretrain"]:
         # reach a trained state through the public API, then restore the configured limits
         live.max_fitting_steps = case["pretrain"]
@@ -433,6 +472,8 @@ def _run_machine(case, rec, store):
             live.update_means, live.update_variances, live.update_weights = po["um"], po["uv"], po["uw"]
         elif po["op"] == "scale":
             setattr(live, po["attr"], np.array(getattr(live, po["attr"])) * po["k"])
+        elif po["op"] == "floor_raise":  # new, higher floors that stay
+            live.variance_thresholds = float(np.mean(np.asarray(live.variances))) * po["up"]
         else:  # raise the floors, then lower them again: the variances keep the raised values
             old = copy.deepcopy(live.variance_thresholds)
             live.variance_thresholds = float(np.mean(np.asarray(live.variances))) * po["up"]
